@@ -74,6 +74,47 @@ theorem expression_after_use (re : RegexOracle) (env : Env) (g : Grammar) (expr 
     not part of the result state (nil filter: the input itself) -/
 theorem input_unmodified_nil_filter (re : RegexOracle) (data : Any) : execute re none data = .ok data := rfl
 
+/-! ### A regexp cache keyed by the (immutable) literal does not make evaluation history-dependent
+
+    The pinned code cached the compiled pattern in the syntax tree on first use
+    (`MatchValue.Converted`); the repaired code compiles at creation.  Either way the cell for a
+    pattern holds nothing or the compilation of THAT pattern, so reading through the cache is the
+    same function as compiling afresh — whatever calls filled it. -/
+
+/-- a cache of compiled patterns: `none` = not cached yet -/
+abbrev ReCache := GoString → Option (Option (GoString → Bool))
+
+/-- compile through the cache -/
+def viaCache (re : RegexOracle) (c : ReCache) : RegexOracle := fun pat =>
+  match c pat with
+  | some compiled => compiled
+  | none => re pat
+
+/-- every cell is empty or holds the compilation of its own literal -/
+def CacheInv (re : RegexOracle) (c : ReCache) : Prop := ∀ pat compiled, c pat = some compiled → compiled = re pat
+
+/-- filling a cell with the compilation of its own pattern preserves the invariant -/
+theorem cacheInv_fill (re : RegexOracle) (c : ReCache) (h : CacheInv re c) (p : GoString) :
+    CacheInv re (fun q => if q = p then some (re p) else c q) := by
+  intro q compiled hq
+  by_cases hqp : q = p
+  · subst hqp; simp at hq; exact hq.symm
+  · simp [hqp] at hq; exact h q compiled hq
+
+theorem viaCache_eq (re : RegexOracle) (c : ReCache) (h : CacheInv re c) : viaCache re c = re := by
+  funext pat
+  unfold viaCache
+  cases hc : c pat with
+  | none => rfl
+  | some compiled => exact h pat compiled hc
+
+/-- whatever a history of calls put into the cache, the next call returns what a fresh evaluator
+    (empty cache) returns -/
+theorem history_independent_with_cache (re : RegexOracle) (ev : Evaluator) (c : ReCache)
+    (h : CacheInv re c) (d : Any) :
+    ev.evaluate (viaCache re c) d = ev.evaluate (viaCache re (fun _ => none)) d := by
+  rw [viaCache_eq re c h, viaCache_eq re (fun _ => none) (by intro p x hx; cases hx)]
+
 /-- non-vacuity: a two-call history with an erroring first call -/
 def exEv : Evaluator :=
   { ast := .match_ ⟨.bexpr, [[120]]⟩ .equal (some [49]), tagName := [98], hook := .off, unknown := none,
@@ -88,3 +129,5 @@ end Bexpr.Props.C13
 #print axioms Bexpr.Props.C13.history_outcomes
 #print axioms Bexpr.Props.C13.execute_history_independent
 #print axioms Bexpr.Props.C13.expression_roundtrip
+#print axioms Bexpr.Props.C13.history_independent_with_cache
+#print axioms Bexpr.Props.C13.cacheInv_fill
